@@ -89,16 +89,17 @@ def execute_guarded(mod, program):
         ) from e
 
 
-def minimise(mod, program, violation, budget=60):
+def minimise(mod, program, violation, budget=60, wall_s=90):
     """Budgeted delta debugging: accept a candidate iff it fails the *same
     invariant id*. Candidates come from the property's own shrink()."""
     best, best_v = program, violation
     spent = 0
     progress = True
-    while progress and spent < budget:
+    t_end = time.time() + wall_s
+    while progress and spent < budget and time.time() < t_end:
         progress = False
         for cand in mod.shrink(best):
-            if spent >= budget:
+            if spent >= budget or time.time() > t_end:
                 break
             spent += 1
             try:
@@ -163,6 +164,7 @@ def main():
             emit({"r": -1, "harness_error": str(e)[-3000:]})
         return
 
+    minimised = {}
     for r in job["runs"]:
         t0 = time.time()
         rng = core.run_rng(seed, job["prop"], r)
@@ -186,8 +188,12 @@ def main():
             if job.get("samples") and r in job["samples"]:
                 rec["sample"] = program
             if v is not None:
-                if job.get("minimise", True):
-                    small, v2, spent = minimise(mod, program, v)
+                # minimise the first violations of each invariant only: a broken
+                # tree fails many runs and one training program costs seconds
+                n_min = minimised.get(v.inv, 0)
+                if job.get("minimise", True) and n_min < 1 and sum(minimised.values()) < 3:
+                    minimised[v.inv] = n_min + 1
+                    small, v2, spent = minimise(mod, program, v, budget=job.get("shrink_budget", 40))
                 else:
                     small, v2, spent = program, v, 0
                 ctx2, v3 = execute_guarded(mod, small)
